@@ -106,17 +106,19 @@ func structFieldsAt(t reflect.Type, depth int) []sfield {
 		f := t.Field(i)
 		tag, hasTag := f.Tag.Lookup("json")
 		name, opts, _ := strings.Cut(tag, ",")
+		embStruct := false
 		if f.Anonymous {
 			ft := f.Type
 			if ft.Kind() == reflect.Pointer {
 				ft = ft.Elem()
 			}
-			if ft.Kind() == reflect.Struct && (!hasTag || name == "") {
+			embStruct = ft.Kind() == reflect.Struct
+			if embStruct && (!hasTag || name == "") {
 				out = append(out, structFieldsAt(ft, depth+1)...)
 				continue
 			}
 		}
-		if !f.IsExported() {
+		if !f.IsExported() && !embStruct { // (an embedded struct of unexported type with a JSON name is marshaled under that name)
 			continue
 		}
 		if tag == "-" {
